@@ -264,9 +264,13 @@ class C19(Check):
                   "cables": T(((a, 1), (b, 1)), ((b, 2), (c2, 1)), ((a, 2), (c2, 2)))}
             cab = [((a, 1), (b, 1)), ((b, 2), (c2, 1)), ((a, 2), (c2, 2))]
             up3 = [{"k": "up", "dpid": d} for d in (a, b, c2)]
-            for victim, again in ((c2, cab[1:]), (b, cab[:2])):
+            # rediscovery orders: plain rounds, and "the redundant link's first direction, then the tree link, then its second direction"
+            # (the order in which the rebooted switch's blocked port is wanted NO_FLOOD at every update it takes part in)
+            for victim, again in ((c2, rnd(cab[1:])), (b, rnd(cab[:2])),
+                                  (c2, [P((b, 2), (c2, 1)), P((a, 2), (c2, 2)), P((c2, 2), (a, 2)), P((c2, 1), (b, 2))]),
+                                  (b, [P((c2, 1), (b, 2)), P((a, 1), (b, 1)), P((b, 1), (a, 1)), P((b, 2), (c2, 1))])):
                 out.append({"kind": "hist", "topo": t3, "ops": up3 + rnd(cab) + [{"k": "down", "dpid": victim}, {"k": "tick", "dt": 1000},
-                            {"k": "up", "dpid": victim}] + rnd(again)})
+                            {"k": "up", "dpid": victim}] + again})
         # C19-2: triangle, then both links of switch 2 die in one sweep: 2 leaves the tree with its port towards 3 still blocked
         out.append({"kind": "hist", "topo": tri, "ops": ups + rnd(c) + [{"k": "tick", "dt": 6000}] + rnd([c[2]]) +
                     [{"k": "tick", "dt": 6000}, {"k": "sweep"}]})
@@ -799,7 +803,7 @@ class C19(Check):
             treesw = {e[0] for c in cables for e in c}
             enabled = []
             for e1, e2 in cables:
-                if on(e1) != on(e2): return "flood: after %s: link %s-%s enabled on one end only" % (op["k"], e1, e2)
+                if on(e1) != on(e2): return "flood: after %s: link %s-%s enabled on one end only (a flood leaves through that end and comes back over the tree: the flood-enabled ports contain a cycle)" % (op["k"], e1, e2)
                 if on(e1): enabled.append((e1, e2))
             f = forest_check(adj, enabled, sorted({a for a, b, c, d in adj} | {c for a, b, c, d in adj}))
             if f: return "flood: after %s: enabled links are %s" % (op["k"], f)
